@@ -205,7 +205,7 @@ func TestVP_C25_Sessions(t *testing.T) {
 // Handler level: streams opened and closed in generated order; META decrypted by the real
 // handler; `cat` sessions stay alive until their stream is closed.
 func TestVP_C25_Handler(t *testing.T) {
-	st := vp.NewStats("C25", "handler", "shell.Handler with max_sessions 1-3: generated order of stream opens (META for `cat` with right/wrong password or a non-whitelisted command) and closes; a reference counter predicts which opens must be refused; non-trivial = an open arrives while max_sessions sessions are live, or after a refused/closed one")
+	st := vp.NewStats("C25", "handler", "shell.Handler with max_sessions 1-3: generated order of stream opens (streaming or interactive/PTY; META for `cat` with right/wrong password, a non-whitelisted command or a forbidden argument) and closes; a reference counter predicts which opens must be refused; non-trivial = an open arrives while max_sessions sessions are live, or after a refused/closed one")
 	defer st.Flush()
 	rapid.Check(t, func(t *rapid.T) {
 		max := rapid.IntRange(1, 3).Draw(t, "max")
@@ -227,7 +227,8 @@ func TestVP_C25_Handler(t *testing.T) {
 				sid += 2
 				id := sid
 				priv, pub, _ := crypto.GenerateEphemeralKeypair()
-				code, rpub := h.HandleStreamOpen(identity.AgentID{7}, id, id, false, pub)
+				interactive := rapid.IntRange(0, 2).Draw(t, "interactive") == 0
+				code, rpub := h.HandleStreamOpen(identity.AgentID{7}, id, id, interactive, pub)
 				if code != 0 {
 					t.Fatalf("stream open refused with %d", code)
 				}
@@ -236,17 +237,24 @@ func TestVP_C25_Handler(t *testing.T) {
 					t.Fatalf("ecdh: %v", err)
 				}
 				key := crypto.DeriveSessionKey(sec, id, pub, rpub, true)
-				kind := rapid.SampledFrom([]string{"ok", "ok", "ok", "bad-password", "bad-command"}).Draw(t, "kind")
+				kind := rapid.SampledFrom([]string{"ok", "ok", "ok", "bad-password", "bad-command", "bad-arg"}).Draw(t, "kind")
 				meta := &shell.ShellMeta{Command: "cat", Password: "letmein"}
 				switch kind {
 				case "bad-password":
 					meta.Password = "nope"
 				case "bad-command":
 					meta.Command = "sh"
+				case "bad-arg":
+					meta.Args = []string{"a;b"}
+				}
+				if interactive {
+					// a request for a terminal: same authorisation rule, other start-up path
+					meta.TTY = &shell.TTYSettings{Rows: 24, Cols: 80, Term: "dumb"}
+					kind += "+tty"
 				}
 				payload, _ := shell.EncodeMeta(meta)
 				ct, _ := key.Encrypt(payload)
-				wantOK := kind == "ok" && len(open) < max
+				wantOK := strings.HasPrefix(kind, "ok") && len(open) < max
 				if len(open) >= max || len(ops) > 0 {
 					nt = true
 				}
